@@ -15,6 +15,7 @@ RSign(x, y) == IF Var(x) = 0 \/ Var(y) = 0 THEN 0 ELSE Sgn(Cov(x, y))
 \* recorded r (scaled 10^6) is consistent with the exact r^2 and sign; tol on r is 10^-3
 RIs(r6, x, y) ==
   LET r3 == RDiv(r6, 1000) IN
+  /\ IsNum(r6) /\ Abs(r6) <= 2000000        \* (a NaN / infinite / absurd estimate is not the statistic: total verdict)
   /\ Abs(r3 * r3 - RSq6(x, y)) <= 2 * Abs(r3) * 2 + 2500
   /\ (RSq6(x, y) > 10000 => Sgn(r6) = RSign(x, y))
 \* column i of a data matrix (sequence of rows), rows a..b
